@@ -9,3 +9,5 @@
 pub fn hook_version() -> u32 {
 	1
 }
+
+pub use crate::inline_substitutions::InlineFendResultComponent;
